@@ -3374,6 +3374,13 @@ func (a *Association) createForwardTSN() *chunkForwardTSN {
 			break
 		}
 
+		// RFC 3758 sec 3.2: the Stream/Stream Sequence pairs MUST NOT report
+		// DATA chunks that are marked as unordered; their SSN field is not
+		// consumed from the stream's ordered sequence space.
+		if c.unordered {
+			continue
+		}
+
 		ssn, ok := streamMap[c.streamIdentifier]
 		if !ok {
 			streamMap[c.streamIdentifier] = c.streamSequenceNumber
